@@ -115,7 +115,7 @@ class CommandsTagsWrapper(CommandWrapper):
 
     async def incr(self, key: Key, value: int = 1, expire: float | None = None, tags: Tags = ()) -> int:
         _set = await super().incr(key=key, value=value, expire=expire)
-        if _set and tags:
+        if tags:  # the counter is written whatever its new value is (0 included)
             for tag in tags:
                 await self.set_add(self._tags_key_prefix + tag, key, expire=expire)
         return _set
